@@ -50,6 +50,9 @@ class BaseModel:
         return None
 
 
+# std combinators analysed as the control flow they abbreviate (see symex.Engine.combinator); None = keep them opaque
+DESUGAR_DEFAULT = r"."
+
 LOG_MACROS = ("trace!", "debug!", "info!", "warn!", "error!")
 
 
@@ -74,6 +77,7 @@ def init_params(fn, fid, path=None):
 
 
 def run_fn(fn, facts, model=None, cut_back_edges=True, **kw):
+    kw.setdefault("desugar", DESUGAR_DEFAULT)
     ex = S.Engine(fn, facts, model or BaseModel(), cut_edges=fn.back_edges() if cut_back_edges else (), **kw)
     paths = ex.run(0, init_params(fn, ex.fid))
     return ex, paths
@@ -103,14 +107,47 @@ def field_path(steps):
     return ".".join(str(st[1]) if not isinstance(st[1], tuple) else "[i]" for st in steps)
 
 
-def callers_of(facts, pattern, only_user=True):
-    """[(caller fn, bb, term)] of every call whose resolved callee path matches."""
+def call_sites_of(facts, fn):
+    """[(caller fn, bb, term)] of the direct calls of the function `fn` (by resolved def)."""
+    out = []
+    for g in facts.fns.values():
+        for bb, t in g.calls():
+            if t.get("resolved") == fn.key or (t.get("resolved") is None and t.get("callee") == fn.key):
+                out.append((g, bb, t))
+    return out
+
+
+def owners(facts, fn, _seen=None):
+    """[(known fn, bb of the call that leads to `fn` or None)]: the functions of the rules' vocabulary on whose behalf
+    `fn` runs.  A function the rules know (or a closure, which belongs to its parent) is its own owner; a helper that was
+    introduced later (symex.is_unknown_helper) runs on behalf of its callers, transitively.  A helper nobody calls has no
+    owner: it cannot affect behaviour."""
+    if not S.is_unknown_helper(fn):
+        return [(fn, None)]
+    _seen = _seen or set()
+    if fn.key in _seen:
+        return []
+    _seen.add(fn.key)
+    out = []
+    for g, bb, t in call_sites_of(facts, fn):
+        for o, b2 in owners(facts, g, _seen):
+            out.append((o, b2 if b2 is not None else bb))
+    return out
+
+
+def callers_of(facts, pattern, only_user=True, attribute_helpers=True):
+    """[(caller fn, bb, term)] of every call whose resolved callee path matches.  A call made inside a helper the rules
+    do not know by name is attributed to the known functions that (transitively) call the helper."""
     rx = re.compile(pattern)
     out = []
     for fn in facts.fns.values():
         for bb, t in fn.calls():
             if rx.search(t.get("resolved_path") or "") or rx.search(M.call_name(t)):
-                out.append((fn, bb, t))
+                if attribute_helpers and S.is_unknown_helper(fn):
+                    for o, b2 in owners(facts, fn):
+                        out.append((o, b2, t))
+                else:
+                    out.append((fn, bb, t))
     return out
 
 
@@ -132,7 +169,12 @@ def field_writers(facts, adt_suffix, field):
         dw = facts.direct_writes(fn)
         for (adt, f), sites in dw.items():
             if f == field and (adt == adt_suffix or adt.endswith("::" + adt_suffix)):
-                out.setdefault(fn.name, []).extend(sites)
+                if S.is_unknown_helper(fn):
+                    # a helper the rules do not know by name: the write happens on behalf of its callers
+                    for o, b2 in owners(facts, fn):
+                        out.setdefault(o.name, []).extend([(b2, 0, "via " + M.short_name(fn.name))])
+                else:
+                    out.setdefault(fn.name, []).extend(sites)
     return out
 
 
@@ -180,3 +222,73 @@ def language_foundation(ctx):
     pC06.compiled_mode_rules(ctx, "C02.h")   # every configured pattern reaches the compiler, unmodified
     casts.analyze(ctx, {"C17.a"})   # ids of states, groups and classes are injective (no narrowing cast on a count or index)
     minimizer_rules.analyze(ctx, {"C03.a", "C03.b", "C03.c", "C03.d", "C03.e", "C03.f", "C03.g", "C03.h"})
+
+
+
+def search_table(ex, paths):
+    """Classifies the paths of a function that walks over a collection looking for an element (a `for` loop with an early
+    exit, or find / position / any / all / find_map, which the engine analyses as that loop):
+      {"exhausted": [(return value, path)], "hit": [(return value, item conds, path)], "miss": [(item conds, path)], "source": [str]}
+    'item conds' are the branch conditions that mention the current element, as (term, outcome)."""
+    out = {"exhausted": [], "hit": [], "miss": [], "source": []}
+    for p in paths:
+        items = [e for e in p.events if e[0] == "iter-item"]
+        nexts = [e for e in p.events if e[0] == "call" and re.search(r"iter::Iterator>::next$", e[2])]
+        src = None
+        item_terms = []
+        for e in items:
+            src = S.fstr(e[3])
+            item_terms.append(e[4])
+        for e in p.events:
+            if e[0] == "iter-exhausted":
+                src = src or S.fstr(e[3])
+        for e in nexts:
+            src = src or S.fstr(ex.deref_val(p, e[3][0]) if e[3][0][0] == "ref" else e[3][0])
+        if src:
+            out["source"].append(src)
+        has_item = bool(items) or any("item@" in S.fstr(c) for c, o in p.conds)
+        ic = [(c, o) for c, o in p.conds if "item@" in S.fstr(c) and not (c[0] == "isvar" and "Iterator>::next" in S.fstr(c))]
+        if p.end is None:
+            continue
+        if p.end[0] == "cut":
+            out["miss"].append((ic, p))
+        elif p.end[0] == "return":
+            if has_item:
+                out["hit"].append((p.end[1], ic, p))
+            else:
+                out["exhausted"].append((p.end[1], p))
+    return out
+
+
+def is_eq_of(c, a_rx, b_rx):
+    """c is `a == b` (either operand order, binop or PartialEq::eq) with the printed operands matching the two patterns"""
+    l = r = None
+    if c[0] == "binop" and c[1] == "Eq":
+        l, r = c[2], c[3]
+    elif c[0] == "app" and re.search(r"PartialEq(<[^>]*>)?>::eq$", str(c[1])) and len(c[2]) == 2:
+        l, r = c[2]
+    if l is None:
+        return False
+    ls, rs = S.fstr(l), S.fstr(r)
+    return bool((re.search(a_rx, ls) and re.search(b_rx, rs)) or (re.search(a_rx, rs) and re.search(b_rx, ls)))
+
+
+
+def uncast(t):
+    while t[0] == "cast":
+        t = t[2]
+    return t
+
+
+def hit_is_index_of(r, cond):
+    """The value r (casts ignored) is the position of the element the condition `cond` speaks about: index@bbN for
+    item@bbN (position / a search analysed as a loop), or item@bbN.0 when the loop runs over enumerate() and the condition
+    looks at item@bbN.1."""
+    cs = S.fstr(cond)
+    m = re.search(r"item@bb(\d+)(\.1)?", cs)
+    if not m:
+        return False
+    r0 = uncast(r)
+    if m.group(2):
+        return S.fstr(r0).replace("(", "").replace(")", "") in ("item@bb%s.0" % m.group(1),)
+    return r0 == ("sym", "index@bb" + m.group(1))
